@@ -72,6 +72,9 @@ type scenario struct {
 	Rules    []rule            `json:"rules"`
 	Params   map[string]string `json:"params"`
 	Seed     int64             `json:"seed"`
+	// Conn: 0 = the XR asks for no connection secret; 1 = it asks for one and the composition produces no
+	// connection details; 2 = it asks for one and (pipeline mode) the last step returns fixed details.
+	Conn int `json:"conn,omitempty"`
 }
 
 // envStep is something the environment (provider, user) does between reconciles.
@@ -84,6 +87,7 @@ type envStep struct {
 func genScenario() *rapid.Generator[scenario] {
 	return rapid.Custom(func(t *rapid.T) scenario {
 		sc := scenario{Pipeline: rapid.Bool().Draw(t, "pipeline"), Params: map[string]string{}, Seed: rapid.Int64Range(1, 1<<40).Draw(t, "nameseed")}
+		sc.Conn = rapid.SampledFrom([]int{0, 0, 1, 2}).Draw(t, "conn")
 		n := rapid.IntRange(1, 4).Draw(t, "nrules")
 		sc.Steps = 1
 		if sc.Pipeline {
@@ -200,6 +204,12 @@ func (sc scenario) runner() composite.FunctionRunner {
 			}
 			d.Resources[r.Name] = &fnv1.Resource{Resource: s, Ready: ready}
 		}
+		if sc.Conn == 2 && step == sc.Steps-1 {
+			if d.Composite == nil {
+				d.Composite = &fnv1.Resource{}
+			}
+			d.Composite.ConnectionDetails = map[string][]byte{"endpoint": []byte("example.org"), "user": []byte("admin")}
+		}
 		return &fnv1.RunFunctionResponse{Desired: d, Context: req.GetContext()}, nil
 	})
 }
@@ -269,6 +279,9 @@ func newWorld(sc scenario, fail func(string, ...any)) *world {
 		params[k] = v
 	}
 	_ = unstructured.SetNestedMap(xr.Object, params, "spec", "params")
+	if sc.Conn > 0 {
+		_ = unstructured.SetNestedMap(xr.Object, map[string]any{"name": "xr1-conn", "namespace": "secrets"}, "spec", "writeConnectionSecretToRef")
+	}
 	env.Sim.MustCreate("user", xr)
 	w.xrUID = string(xr.GetUID())
 	env.Sim.AddMonitor(w.monitor)
@@ -401,6 +414,12 @@ func (w *world) quiesceN(ctx string, steady int) {
 			w.fail("%s: I3 does not quiesce: XR is Synced=True but objects still change after %d fault-free reconciles", ctx, i+1)
 		}
 	}
+	if !w.xrSynced() {
+		// "Once the composed state matches the desired state ...": an XR that is not Synced=True has resources
+		// that were not rendered or applied (e.g. a Required patch whose source is missing gets a fresh generated
+		// name recorded for it on every reconcile); the steady-state clause does not apply to it.
+		return
+	}
 	for j := 0; j < steady; j++ {
 		before := w.env.Sim.Digest()
 		_, _ = w.reconcile(nil)
@@ -433,7 +452,11 @@ func diffDigest(a, b string) string {
 	for _, l := range strings.Split(b, "\n") {
 		if i := strings.IndexByte(l, '='); i > 0 {
 			if am[l[:i]] != l[i+1:] {
-				fmt.Fprintf(&sb, "  %s\n   before: %s\n   after:  %s\n", l[:i], am[l[:i]], l[i+1:])
+				fmt.Fprintf(&sb, "  %s:\n", l[:i])
+				var a, b any
+				_ = json.Unmarshal([]byte(am[l[:i]]), &a)
+				_ = json.Unmarshal([]byte(l[i+1:]), &b)
+				jsonDiff(&sb, "", a, b)
 			}
 			delete(am, l[:i])
 		}
@@ -442,6 +465,30 @@ func diffDigest(a, b string) string {
 		fmt.Fprintf(&sb, "  %s removed\n", k)
 	}
 	return sb.String()
+}
+
+// jsonDiff lists the paths at which two JSON values differ.
+func jsonDiff(sb *strings.Builder, path string, a, b any) {
+	am, aok := a.(map[string]any)
+	bm, bok := b.(map[string]any)
+	if aok && bok {
+		ks := map[string]bool{}
+		for k := range am {
+			ks[k] = true
+		}
+		for k := range bm {
+			ks[k] = true
+		}
+		for _, k := range keys(ks) {
+			jsonDiff(sb, path+"."+k, am[k], bm[k])
+		}
+		return
+	}
+	ab, _ := json.Marshal(a)
+	bb, _ := json.Marshal(b)
+	if string(ab) != string(bb) {
+		fmt.Fprintf(sb, "    %s: %s -> %s\n", path, ab, bb)
+	}
 }
 
 var faultKinds = []verifsim.Fault{
@@ -520,6 +567,7 @@ func TestVerifC01Sweep(t *testing.T) {
 		rec.Eval()
 		rec.Labelf("pipeline=%v", sc.Pipeline)
 		rec.Labelf("rules=%d", len(sc.Rules))
+		rec.Labelf("conn=%d", sc.Conn)
 		w := newWorld(sc, func(f string, a ...any) { t.Fatalf(f, a...) })
 		w.rec = rec
 		w.sweep(rec, "stage 0 (fresh XR)")
